@@ -350,10 +350,19 @@ func emitExportOptions(fi *ast.File) {
 	var items []string
 	for _, st := range l[1 : len(l)-1] {
 		as, ok := st.(*ast.AssignStmt)
-		if !ok || len(as.Lhs) != 1 || len(as.Rhs) != 1 || !strings.HasPrefix(src(as.Lhs[0]), "ops.") || !strings.HasPrefix(src(as.Rhs[0]), "f.") {
-			die("%s: statement `%s` is not ops.<Option> = f.<Attribute>", pos(st), src(st))
+		if !ok || len(as.Lhs) != 1 || len(as.Rhs) != 1 || !strings.HasPrefix(src(as.Lhs[0]), "ops.") {
+			die("%s: statement `%s` is not ops.<Option> = f.<Attribute> | true | false", pos(st), src(st))
 		}
-		items = append(items, "("+q(strings.TrimPrefix(src(as.Lhs[0]), "ops."))+", "+q(strings.TrimPrefix(src(as.Rhs[0]), "f."))+")")
+		rhs := src(as.Rhs[0])
+		switch {
+		case strings.HasPrefix(rhs, "f."):
+			rhs = strings.TrimPrefix(rhs, "f.")
+		case rhs == "false" || rhs == "true":
+			rhs = "const " + rhs // a session option a FILE never takes over (terminal colours)
+		default:
+			die("%s: statement `%s` is not ops.<Option> = f.<Attribute> | true | false", pos(st), src(st))
+		}
+		items = append(items, "("+q(strings.TrimPrefix(src(as.Lhs[0]), "ops."))+", "+q(rhs)+")")
 	}
 	fmt.Printf("/-- FileInfo.ExportOptions: (export option, FileInfo attribute that overrides the session's value), unconditionally, in order -/\ndef exportOptionsMap : List (String × String) :=\n  [%s]\n\n", strings.Join(items, ", "))
 }
